@@ -460,11 +460,20 @@ type SpendOpts struct {
 }
 
 // UtxoSpend builds a transaction spending hidden outputs of a wallet.
-func (g *Gen) UtxoSpend(o SpendOpts) *Item { return g.utxoSpend(o, nil) }
+func (g *Gen) UtxoSpend(o SpendOpts) *Item { return g.utxoSpend(o, spendHooks{}) }
+
+// spendHooks are the adversarial seams of utxoSpend (all nil = the plain builder).
+type spendHooks struct {
+	// pre runs between construction and signing (see UtxoSpendPre).
+	pre func(tx *types.UTXOTransaction, dests []types.DestEntry)
+	// rct replaces types.UInTransWithRctSig (see UtxoSpendForged); the created
+	// outputs are then not scanned back by the destination wallets.
+	rct func(tx *types.UTXOTransaction, sources []*types.UTXOSourceEntry, ephs []*types.UTXOInputEphemeral, dests []types.DestEntry, mkeys lktypes.KeyV) error
+}
 
 // utxoSpend is UtxoSpend with an optional hook between construction and
-// signing (see UtxoSpendPre in adversarial.go); pre == nil is the plain builder.
-func (g *Gen) utxoSpend(o SpendOpts, pre func(tx *types.UTXOTransaction, dests []types.DestEntry)) *Item {
+// signing and an optional replacement of the RingCT stage (adversarial.go, forge.go).
+func (g *Gen) utxoSpend(o SpendOpts, hk spendHooks) *Item {
 	w, token := o.Wallet, o.Token
 	unit := g.rateOf(token)
 	if w == nil || unit == nil {
@@ -617,13 +626,17 @@ func (g *Gen) utxoSpend(o SpendOpts, pre func(tx *types.UTXOTransaction, dests [
 		if err != nil {
 			return
 		}
-		if pre != nil {
-			pre(tx, dests)
+		if hk.pre != nil {
+			hk.pre(tx, dests)
 		}
 		if signer != nil {
 			if err = tx.Sign(types.GlobalSTDSigner, signer.Key); err != nil {
 				return
 			}
+		}
+		if hk.rct != nil {
+			err = hk.rct(tx, sources, ephs, dests, mkeys)
+			return
 		}
 		err = types.UInTransWithRctSig(tx, sources, ephs, dests, mkeys)
 	})
@@ -639,10 +652,12 @@ func (g *Gen) utxoSpend(o SpendOpts, pre func(tx *types.UTXOTransaction, dests [
 	for i := range tx.RCTSig.P.MGs {
 		tx.RCTSig.P.MGs[i].II = nil
 	}
-	outs, err := g.collectOuts(tx, dests, owners, unit)
-	if err != nil {
-		g.LastUtxoError = err
-		return nil
+	var outs []*Hidden
+	if hk.rct == nil {
+		if outs, err = g.collectOuts(tx, dests, owners, unit); err != nil {
+			g.LastUtxoError = err
+			return nil
+		}
 	}
 	for _, h := range ins {
 		g.pendKI[hiddenID(h)] = true
